@@ -365,6 +365,7 @@ func isLoopHeader(b *ssa.BasicBlock) bool {
 // assignments together, so that the in-memory group state stays the function of (members, subscriptions, partitions) that a
 // restore recomputes from scratch.
 func ruleGroupBookkeeping(c *eng.Ctx) {
+	ruleGroupLeaveAndDeleteCoverEveryone(c)
 	p := c.P
 	ge := p.Field("server", "consumerGroup", "epoch")
 	isBuiltin := func(name string, argv ...eng.VM) func(ssa.Instruction) bool {
